@@ -44,6 +44,12 @@ def domain_of(ex, v: Any, st: State) -> Domain:
         if inner.concrete is not None:
             return Domain(inner.n, None, "enumerate", concrete=[Tup((ex.const(k), x)) for k, x in enumerate(inner.concrete)])
         return Domain(inner.n, lambda i, s: Tup((T(M.IntV(i), "int"), inner.elem(i, s))), "enumerate")
+    if isinstance(v, Builtin) and v.name == "zip_view":
+        a, b = domain_of(ex, v.bound[0], st), domain_of(ex, v.bound[1], st)
+        if a.concrete is not None or b.concrete is not None:
+            raise Unsupported("zip of a literal")
+        n = z3.If(a.n < b.n, a.n, b.n)
+        return Domain(n, lambda i, s: Tup((a.elem(i, s), b.elem(i, s))), "zip")
     if isinstance(v, Builtin) and v.name == "dict_items_view":
         d = ex.dict_snap(v.bound, st)
         dm = Domain(M.klen(d), lambda i, s: Tup((T(M.kat(d, i)), T(M.dget(d, M.kat(d, i))))), "dict.items")
@@ -92,6 +98,12 @@ def b_enumerate(ex, pos, kws, st):
     return [(st, Builtin("enumerate_view", pos[0]))]
 
 
+def b_zip(ex, pos, kws, st):
+    if len(pos) != 2:
+        raise Unsupported("zip of other than two iterables")
+    return [(st, Builtin("zip_view", (pos[0], pos[1])))]
+
+
 def b_range(ex, pos, kws, st):
     zs = [M.int_of(ex.term(p, st)) for p in pos]
     if len(zs) == 1:
@@ -104,13 +116,50 @@ def b_range(ex, pos, kws, st):
 
 
 # ============================================================================= for loops
-def loop_ordinal(info, stmt: ast.For) -> int:
-    fors = [n for n in ast.walk(info.node) if isinstance(n, ast.For)]
+RESTRUCTURED: set = set()      # functions whose `for` statements differ from the recorded ones
+NO_RECORD = False      # set while a canary mutant is being verified: its source is not the pristine one
+
+
+def _loops_of(node: ast.AST) -> List[ast.For]:
+    fors = [n for n in ast.walk(node) if isinstance(n, ast.For)]
     fors.sort(key=lambda n: (n.lineno, n.col_offset))
+    return fors
+
+
+def _loop_header(n: ast.For) -> str:
+    return ast.dump(n.target) + " in " + ast.dump(n.iter)
+
+
+def loop_ordinal(info, stmt: ast.For) -> int:
+    """ordinal of the loop *as the sidecar invariants number it*.  On the pristine tree that is the position among the
+    function's `for` statements; invariant_locals.json records every loop's header then, and when the function's loops
+    have changed since (one removed, added, reordered) a loop is matched to its recorded ordinal by its header
+    (`for <target> in <iter>`), provided that is unambiguous -- otherwise it has no invariant (undecided, never a wrong
+    invariant applied to another loop)."""
+    fors = _loops_of(info.node)
+    cur = -1
     for k, n in enumerate(fors):
         if n.lineno == stmt.lineno and n.col_offset == stmt.col_offset:
-            return k
-    return -1
+            cur = k
+    headers = [_loop_header(n) for n in fors]
+    bodies = [_loop_header(n) + " : " + "; ".join(ast.dump(b) for b in n.body) for n in fors]
+    key = f"{info.relpath}|{info.qualname}"
+    if os.environ.get("PYVC_WRITE_LOCALS") == "1" and not NO_RECORD:
+        _record(key, "_loops", headers)
+        _record(key, "_loop_bodies", bodies)
+        return cur
+    rec = _load_locals().get(key, {}).get("_loops")
+    if rec is None or rec == headers or cur < 0:
+        return cur
+    RESTRUCTURED.add(key)
+    recb = _load_locals().get(key, {}).get("_loop_bodies") or []
+    if recb.count(bodies[cur]) == 1 and bodies.count(bodies[cur]) == 1:
+        return recb.index(bodies[cur])      # the very same loop (header and body), wherever it moved
+    h = headers[cur]
+    if rec.count(h) != headers.count(h) or rec.count(h) == 0:
+        return -1            # ambiguous or unknown: no invariant for this loop
+    nth = [i for i, x in enumerate(headers) if x == h].index(cur)
+    return [i for i, x in enumerate(rec) if x == h][nth]
 
 
 def assigned_names(body: List[ast.stmt]) -> List[str]:
@@ -172,6 +221,20 @@ def _load_locals() -> Dict[str, Any]:
     return _locals_cache
 
 
+def _record(key: str, name: str, value: Any) -> None:
+    import fcntl
+    with open(LOCALS_FILE + ".lock", "w") as lk:
+        fcntl.flock(lk, fcntl.LOCK_EX)
+        try:
+            data = json.load(open(LOCALS_FILE))
+        except Exception:
+            data = {}
+        if data.setdefault(key, {}).get(name) != value:
+            data[key][name] = value
+            with open(LOCALS_FILE, "w") as f:
+                json.dump(data, f, indent=1, sort_keys=True)
+
+
 def record_local(info: Any, name: str) -> None:
     """(PYVC_WRITE_LOCALS=1, pristine tree) remember how the local an invariant names is initialised"""
     asg = _assignments(info.node)
@@ -223,7 +286,7 @@ class LoopView:
 
     def _term(self, st: State, name: str) -> Any:
         info = st.env.get("__func__") or getattr(self.ex, "current_info", None)
-        if name in st.env and os.environ.get("PYVC_WRITE_LOCALS") == "1" and info is not None:
+        if name in st.env and os.environ.get("PYVC_WRITE_LOCALS") == "1" and info is not None and not NO_RECORD:
             record_local(info, name)
         if name not in st.env and info is not None:
             # the local may just have been renamed: find the assignment with the recorded fingerprint
@@ -347,9 +410,10 @@ def _for_one(ex, stmt: ast.For, info, itv: Any, s: State) -> List[Tuple[State, A
             out += unroll(ex, stmt, dom.concrete, s)
             return out
         k = loop_ordinal(info, stmt)
-        inv = ex.contracts.lookup_invariant(info, k)
+        inv = ex.contracts.lookup_invariant(info, k) if k >= 0 else None
         if inv is None:
-            raise Unsupported(f"loop #{k} of {info.qualname} (line {stmt.lineno}) has no sidecar invariant")
+            raise Unsupported(f"loop #{k} of {info.qualname} (line {stmt.lineno}) has no sidecar invariant"
+                              + (" (the function's loops changed and this one cannot be matched to a recorded one)" if k < 0 else ""))
         ex.loop_domain = dom
         out += with_invariant(ex, stmt, dom, inv, info, k, s)
     return out
